@@ -171,6 +171,12 @@ def grep_forbidden() -> List[str]:
     return bad
 
 
+# a property theorem: `Theorem name : statement. Proof. exact lemma. Qed.` where lemma is a (qualified, possibly @-prefixed) name or a
+# `conj` of such names; the statement may not contain another `Proof.` (one match cannot swallow a theorem proved differently)
+PROPS_THEOREM = (r"(Theorem|Lemma)\s+\w+\s*:(?:(?!\bProof\.).)*?\.\s*Proof\.\s*exact\s+"
+                 r"(?:@?[A-Za-z_][\w.']*|\((?:conj|[A-Za-z_][\w.']*|[\s()])*\))\s*\.\s*Qed\.")
+
+
 class Obligations:
     """Result of compiling Props/<ID>.v: theorems, their assumptions."""
     def __init__(self):
@@ -217,7 +223,7 @@ def _check_obligations_one(prop_id: str, file_id: str, expected: Sequence[str] =
         ob.errors.append("forbidden constructs: " + "; ".join(bad[:10]))
     src = strip_comments(open(vfile).read())
     # the property file may contain only imports, Theorem/Proof. exact/Qed, Check, Print Assumptions
-    body = re.sub(r"(Theorem|Lemma)\s+\w+\s*:.*?\.\s*Proof\.\s*exact\s+[^.]*(\.[A-Za-z_][\w.']*)*\s*\.\s*Qed\.", "", src, flags=re.S)
+    body = re.sub(PROPS_THEOREM, "", src, flags=re.S)
     body = re.sub(r"(From\s+\S+\s+)?Require\s+(Import|Export)\s+([A-Za-z_][\w.]*\s+)*[A-Za-z_][\w.]*?\.(?=\s|$)", "", body)
     body = re.sub(r"Print\s+Assumptions\s+\w+\s*\.", "", body)
     body = re.sub(r"Check\s+[^.]*\.", "", body)
@@ -609,7 +615,7 @@ def gen_blend_obligations(prop: str = "C03") -> Obligations:
                 for a in ax:
                     if not a.startswith(ALLOWED_AXIOM_PREFIXES):
                         ob.errors.append("theorem %s depends on axiom %s" % (name, a))
-            body = re.sub(r"(Theorem|Lemma)\s+\w+\s*:.*?\.\s*Proof\.\s*exact\s+[^.]*(\.[A-Za-z_][\w.']*)*\s*\.\s*Qed\.", "", src, flags=re.S)
+            body = re.sub(PROPS_THEOREM, "", src, flags=re.S)
             body = re.sub(r"(From\s+\S+\s+)?Require\s+(Import\s+|Export\s+)?([A-Za-z_][\w.]*\s+)*[A-Za-z_][\w.]*?\.(?=\s|$)", "", body)
             body = re.sub(r"Print\s+Assumptions\s+\w+\s*\.", "", body)
             if body.strip():
